@@ -147,57 +147,112 @@ Proof.
   rewrite (find_sel_true _ _ _ _ _ Hf). reflexivity.
 Qed.
 
+(* ------------------------------------------------------------------------------------ lookup (Processor.get) *)
+
+Lemma lookup_subst_other first k s n n' f ms :
+  n' <> n -> lookup first k n' (subst s n f ms) = lookup first k n' ms.
+Proof.
+  intros H. unfold lookup. rewrite getattr_subst_other by assumption.
+  rewrite find_subst_other_name by assumption. reflexivity.
+Qed.
+
+Lemma lookup_subst_std first k s n f ms :
+  std s ->
+  lookup first k n (subst s n f ms) =
+  match lookup first k n ms with Some (mk, t) => Some (mk, if s mk then f t else t) | None => None end.
+Proof.
+  intros Hs. unfold lookup, orelse. destruct first.
+  - rewrite (find_subst_std s) by (assumption || constructor).
+    destruct (find is_item n ms) as [[]|]; [reflexivity|]. apply getattr_subst_std; assumption.
+  - apply getattr_subst_std; assumption.
+Qed.
+
+(* if the lookup returns a member selected by the standard selector s, it is the first s-member *)
+Lemma lookup_sel_find first k s n ms mk t :
+  std s -> lookup first k n ms = Some (mk, t) -> s mk = true -> find s n ms = Some (mk, t).
+Proof.
+  intros Hs. unfold lookup, orelse. destruct first; [|apply getattr_sel_find; assumption].
+  destruct (find is_item n ms) as [[m0 t0]|] eqn:E; [|apply getattr_sel_find; assumption].
+  intros H; inversion H; subst. pose proof (find_sel_true _ _ _ _ _ E) as K.
+  destruct Hs; destruct mk; simpl in *; try discriminate; auto.
+Qed.
+
 (* ------------------------------------------------------------------------------------ set then get *)
 
-Lemma assign_get t att v t' :
-  assign t att v = Ok t' -> tail_attr_ok t att = true -> get t' [att] = Ok (Leaf v).
+(* after the final assignment, the lookup of the LAST component finds the assigned value *)
+Lemma assign_lookup t att v k' ms' :
+  assign t att v = Ok (Node k' ms') -> lookup (item_first k' true) k' att ms' = Some (match lookup (item_first k' true) k' att ms' with Some (mk, _) => mk | None => KItem end, Leaf v).
 Proof.
   destruct t as [x|k ms]; simpl; [discriminate|].
   destruct k; simpl.
   - (* NObj *)
     destruct (find is_prop att ms) as [[mk c]|] eqn:Ep.
     + destruct mk as [st g| | |]; try discriminate. destruct st; [|discriminate].
-      destruct (guard_check g v); [discriminate|]. intros H _; inversion H; subst; clear H. simpl.
-      unfold getattr, orelse. rewrite find_subst_same, Ep. reflexivity.
+      destruct (guard_check g v); [discriminate|]. intros H; inversion H; subst; clear H. simpl.
+      unfold lookup, getattr, orelse. rewrite find_subst_same, Ep. reflexivity.
     + destruct open; [|discriminate].
-      destruct (find is_inst att ms) as [[mk c]|] eqn:Ei; intros H _; inversion H; subst; clear H; simpl.
-      * unfold getattr, orelse. rewrite find_subst_disjoint, Ep by (intros []; simpl; congruence).
-        rewrite find_subst_same, Ei. reflexivity.
-      * unfold getattr, orelse. simpl. rewrite String.eqb_refl. simpl. rewrite Ep. reflexivity.
-  - discriminate.
+      destruct (find is_inst att ms) as [[mk [old|? ?]]|] eqn:Ei; try discriminate.
+      intros H; inversion H; subst; clear H; simpl.
+      unfold lookup, getattr, orelse. rewrite find_subst_disjoint, Ep by (intros []; simpl; congruence).
+      rewrite find_subst_same, Ei. reflexivity.
+  - (* NDict *)
+    destruct (find is_item att ms) as [[mk c]|] eqn:Ei; [|discriminate].
+    intros H; inversion H; subst; clear H. simpl.
+    unfold lookup, orelse. rewrite find_subst_same, Ei. reflexivity.
   - (* NArgs *)
     destruct (find is_item att ms) as [[mk c]|] eqn:Ei; [|discriminate].
-    intros H; inversion H; subst; clear H.
-    destruct (find is_prop att ms) eqn:Ep; [discriminate|].
-    destruct (find is_inst att ms) eqn:En; [discriminate|].
-    destruct (find is_class att ms) eqn:Ec; [discriminate|]. intros _. simpl.
-    unfold getattr, orelse.
-    rewrite !(find_subst_disjoint is_item) by (intros []; simpl; congruence).
-    rewrite Ep, En, Ec. simpl. rewrite find_subst_same, Ei. reflexivity.
+    intros H; inversion H; subst; clear H. simpl.
+    unfold lookup, orelse. rewrite find_subst_same, Ei. reflexivity.
   - (* NGroup *)
     destruct (find is_prop att ms) as [[mk c]|] eqn:Ep.
     + destruct mk as [st g| | |]; try discriminate. destruct st; [|discriminate].
-      destruct (guard_check g v); [discriminate|]. intros H _; inversion H; subst; clear H. simpl.
-      unfold getattr, orelse. rewrite find_subst_same, Ep. reflexivity.
-    + destruct (find is_inst att ms) as [[mk c]|] eqn:Ei; intros H _; inversion H; subst; clear H; simpl.
-      * unfold getattr, orelse. rewrite find_subst_disjoint, Ep by (intros []; simpl; congruence).
-        rewrite find_subst_same, Ei. reflexivity.
-      * unfold getattr, orelse. simpl. rewrite String.eqb_refl. simpl. rewrite Ep. reflexivity.
+      destruct (guard_check g v); [discriminate|]. intros H; inversion H; subst; clear H. simpl.
+      unfold lookup, getattr, orelse. rewrite find_subst_same, Ep. reflexivity.
+    + destruct (find is_inst att ms) as [[mk [old|? ?]]|] eqn:Ei; try discriminate.
+      intros H; inversion H; subst; clear H; simpl.
+      unfold lookup, getattr, orelse. rewrite find_subst_disjoint, Ep by (intros []; simpl; congruence).
+      rewrite find_subst_same, Ei. reflexivity.
+Qed.
+
+Lemma assign_node t att v t' : assign t att v = Ok t' -> exists k ms, t' = Node k ms.
+Proof.
+  destruct t as [x|k ms]; simpl; [discriminate|].
+  destruct k; simpl;
+    repeat match goal with
+           | |- context [match ?x with _ => _ end] => destruct x; try discriminate
+           end; intros H; inversion H; eauto.
+Qed.
+
+Lemma assign_get t att v t' : assign t att v = Ok t' -> get t' [att] = Ok (Leaf v).
+Proof.
+  intros H. destruct (assign_node _ _ _ _ H) as (k & ms & ->).
+  pose proof (assign_lookup _ _ _ _ _ H) as L. simpl. rewrite L. reflexivity.
+Qed.
+
+(* a step of the walk of _get_obj_att is also what Processor.get does at a component that is not the last one *)
+Lemma step_lookup t p s c :
+  step t p = SFound s c ->
+  exists k ms mk, t = Node k ms /\ std s /\ find s p ms = Some (mk, c) /\ lookup (item_first k false) k p ms = Some (mk, c).
+Proof.
+  intros Es. destruct (step_found _ _ _ _ Es) as (k & ms & mk & -> & Hs & Hf & Hg & Hd).
+  exists k, ms, mk. repeat split; auto.
+  destruct k; simpl; unfold lookup; try (apply Hg; congruence).
+  (* NDict: the item is found first *)
+  rewrite (Hd eq_refl) in Hf. unfold orelse. rewrite Hf. reflexivity.
 Qed.
 
 Lemma set_at_get : forall body t att v t',
-  set_at t body att v = Ok t' -> attr_path_at t body att = true ->
-  get t' (body ++ [att]) = Ok (Leaf v).
+  set_at t body att v = Ok t' -> get t' (body ++ [att]) = Ok (Leaf v).
 Proof.
   induction body as [|p body IH]; intros t att v t'.
   - simpl. apply assign_get.
   - simpl. destruct (step t p) as [s c| |] eqn:Es; try discriminate.
-    destruct (step_found _ _ _ _ Es) as (k & ms & mk & -> & Hs & Hf & Hg & _).
+    destruct (step_lookup _ _ _ _ Es) as (k & ms & mk & -> & Hs & Hf & Hl).
     destruct (set_at c body att v) as [c'|] eqn:Ec; [|discriminate].
     intros H; inversion H; subst; clear H.
-    destruct k; try discriminate; intros Hp; simpl;
-      (rewrite (getattr_after_step _ _ _ _ _ _ _ Hs Hf) by (apply Hg; congruence));
-      eapply IH; eauto.
+    cbn [get]. replace (is_nil (body ++ [att])) with false by (destruct body; reflexivity).
+    rewrite lookup_subst_std by assumption. rewrite Hl.
+    rewrite (find_sel_true _ _ _ _ _ Hf). eapply IH; eauto.
 Qed.
 
 Lemma split_last_app k b a : split_last k = Some (b, a) -> k = b ++ [a].
@@ -209,13 +264,12 @@ Qed.
 Lemma split_last_snoc b a : split_last (b ++ [a]) = Some (b, a).
 Proof. unfold split_last. rewrite rev_app_distr. simpl. rewrite rev_involutive. reflexivity. Qed.
 
-Theorem set_get_partial : forall t k v t',
-  set t k v = Ok t' -> attr_path t k = true -> getv t' k = Ok v.
+Theorem set_get : forall t k v t', set t k v = Ok t' -> getv t' k = Ok v.
 Proof.
-  intros t k v t'. unfold set, attr_path, getv.
+  intros t k v t'. unfold set, getv.
   destruct (split_last k) as [[b a]|] eqn:E; [|discriminate].
-  apply split_last_app in E. subst k. intros Hs Hp.
-  rewrite (set_at_get _ _ _ _ _ Hs Hp). destruct b; reflexivity.
+  apply split_last_app in E. subst k. intros Hs.
+  rewrite (set_at_get _ _ _ _ _ Hs). destruct b; reflexivity.
 Qed.
 
 (* ------------------------------------------------------------------------------------ frame *)
@@ -232,91 +286,128 @@ Qed.
 Definition geto (t : tree) (k : list string) : res pyval :=
   match get t k with Ok c => Ok (obs_of c) | Raise e => Raise e end.
 
-(* replacing, in a node, one leaf member by another leaf is invisible at every other key *)
-Lemma frame_node k ms s n mk old v :
-  std s -> find s n ms = Some (mk, Leaf old) ->
-  forall k', k' <> [n] -> geto (Node k (subst s n (fun _ => Leaf v) ms)) k' = geto (Node k ms) k'.
-Proof.
-  intros Hs Hf k' Hk. destruct k' as [|q r]; [reflexivity|].
-  unfold geto. simpl.
-  destruct (String.eqb q n) eqn:Eq.
-  - apply String.eqb_eq in Eq. subst q.
-    rewrite getattr_subst_std by assumption.
-    destruct (getattr k n ms) as [[mk' t0]|] eqn:Eg; [|reflexivity].
-    destruct (s mk') eqn:Esm; [|reflexivity].
-    rewrite (getattr_sel_find _ _ _ _ _ _ Hs Eg Esm) in Hf. inversion Hf; subst.
-    destruct r; [congruence|]. reflexivity.
-  - apply String.eqb_neq in Eq. rewrite getattr_subst_other by assumption. reflexivity.
-Qed.
-
-Lemma assign_frame t att v t' :
-  assign t att v = Ok t' -> tail_is_setting t att = true ->
-  shape t' = shape t /\ forall k', k' <> [att] -> geto t' k' = geto t k'.
+(* what the final assignment does: it replaces, in the landing node, the subtree of one existing member by Leaf v *)
+Lemma assign_subst t att v t' :
+  assign t att v = Ok t' ->
+  tail_is_target t att = true /\
+  exists k ms s mk old, t = Node k ms /\ std s /\ find s att ms = Some (mk, old) /\
+                        t' = Node k (subst s att (fun _ => Leaf v) ms) /\
+                        (tail_is_setting t att = true -> exists x, old = Leaf x).
 Proof.
   destruct t as [x|k ms]; simpl; [discriminate|].
-  assert (G : forall s mk old, std s -> find s att ms = Some (mk, Leaf old) ->
-              shape (Node k (subst s att (fun _ => Leaf v) ms)) = shape (Node k ms) /\
-              forall k', k' <> [att] -> geto (Node k (subst s att (fun _ => Leaf v) ms)) k' = geto (Node k ms) k').
-  { intros s mk old Hs Hf. split.
-    - simpl. f_equal. eapply shape_subst; eauto.
-    - eapply frame_node; eauto. }
   destruct k; simpl.
   - destruct (find is_prop att ms) as [[mk c]|] eqn:Ep.
     + destruct mk as [st g| | |]; try discriminate. destruct st; [|discriminate].
-      destruct (guard_check g v); [discriminate|]. destruct c; [|discriminate].
-      intros H _; inversion H; subst. eapply G; eauto using std.
+      destruct (guard_check g v); [discriminate|]. intros H; inversion H; subst. split; [reflexivity|].
+      exists (NObj open), ms, is_prop, (KProp true g), c. repeat split; auto using std.
+      destruct c; [eauto|discriminate].
     + destruct open; [|discriminate].
-      destruct (find is_inst att ms) as [[mk c]|] eqn:Ei; [|discriminate].
-      destruct c; [|discriminate]. intros H _; inversion H; subst. eapply G; eauto using std.
+      destruct (find is_inst att ms) as [[mk [old|? ?]]|] eqn:Ei; try discriminate.
+      intros H; inversion H; subst. split; [reflexivity|].
+      exists (NObj true), ms, is_inst, mk, (Leaf old). repeat split; eauto using std.
   - destruct (find is_item att ms) as [[mk c]|] eqn:Ei; [|discriminate].
-    destruct c; [|discriminate]. intros H _; inversion H; subst. eapply G; eauto using std.
+    intros H; inversion H; subst. split; [reflexivity|].
+    exists NDict, ms, is_item, mk, c. repeat split; auto using std. destruct c; [eauto|discriminate].
   - destruct (find is_item att ms) as [[mk c]|] eqn:Ei; [|discriminate].
-    destruct c; [|discriminate]. intros H _; inversion H; subst. eapply G; eauto using std.
+    intros H; inversion H; subst. split; [reflexivity|].
+    exists NArgs, ms, is_item, mk, c. repeat split; auto using std. destruct c; [eauto|discriminate].
   - destruct (find is_prop att ms) as [[mk c]|] eqn:Ep.
     + destruct mk as [st g| | |]; try discriminate. destruct st; [|discriminate].
-      destruct (guard_check g v); [discriminate|]. destruct c; [|discriminate].
-      intros H _; inversion H; subst. eapply G; eauto using std.
-    + destruct (find is_inst att ms) as [[mk c]|] eqn:Ei; [|discriminate].
-      destruct c; [|discriminate]. intros H _; inversion H; subst. eapply G; eauto using std.
+      destruct (guard_check g v); [discriminate|]. intros H; inversion H; subst. split; [reflexivity|].
+      exists NGroup, ms, is_prop, (KProp true g), c. repeat split; auto using std.
+      destruct c; [eauto|discriminate].
+    + destruct (find is_inst att ms) as [[mk [old|? ?]]|] eqn:Ei; try discriminate.
+      intros H; inversion H; subst. split; [reflexivity|].
+      exists NGroup, ms, is_inst, mk, (Leaf old). repeat split; eauto using std.
+Qed.
+
+(* replacing, in a node, the subtree of one member is invisible at every key that does not start with its name;
+   if a leaf replaces a leaf it is invisible at every key but the name itself *)
+Lemma frame_node k ms s n mk old v :
+  std s -> find s n ms = Some (mk, old) ->
+  forall k', (is_prefix [n] k' = false \/ ((exists x, old = Leaf x) /\ k' <> [n])) ->
+  geto (Node k (subst s n (fun _ => Leaf v) ms)) k' = geto (Node k ms) k'.
+Proof.
+  intros Hs Hf k' Hk. destruct k' as [|q r]; [reflexivity|].
+  unfold geto. cbn [get].
+  destruct (String.eqb q n) eqn:Eq.
+  - apply String.eqb_eq in Eq. subst q.
+    destruct Hk as [Hk|[[x ->] Hk]].
+    { simpl in Hk. rewrite String.eqb_refl in Hk. discriminate. }
+    rewrite lookup_subst_std by assumption.
+    destruct (lookup (item_first k (is_nil r)) k n ms) as [[mk' t0]|] eqn:Eg; [|reflexivity].
+    destruct (s mk') eqn:Esm; [|reflexivity].
+    rewrite (lookup_sel_find _ _ _ _ _ _ _ Hs Eg Esm) in Hf. inversion Hf; subst.
+    destruct r; [congruence|]. reflexivity.
+  - apply String.eqb_neq in Eq. rewrite lookup_subst_other by assumption. reflexivity.
 Qed.
 
 Lemma set_at_frame : forall body t att v t',
-  set_at t body att v = Ok t' -> targets_setting_at t body att = true ->
-  shape t' = shape t /\ forall k', k' <> body ++ [att] -> geto t' k' = geto t k'.
+  set_at t body att v = Ok t' ->
+  targets_at t body att = true /\
+  (forall k', is_prefix (body ++ [att]) k' = false -> geto t' k' = geto t k') /\
+  (targets_setting_at t body att = true ->
+   shape t' = shape t /\ forall k', k' <> body ++ [att] -> geto t' k' = geto t k').
 Proof.
   induction body as [|p body IH]; intros t att v t'.
-  - simpl. apply assign_frame.
+  - simpl. intros H. destruct (assign_subst _ _ _ _ H) as (Ht & k & ms & s & mk & old & -> & Hs & Hf & -> & Hleaf).
+    split; [exact Ht|]. split.
+    + intros k' Hk. eapply frame_node; eauto.
+    + intros Hset. destruct (Hleaf Hset) as [x ->]. split.
+      * simpl. f_equal. eapply shape_subst; eauto.
+      * intros k' Hk. eapply frame_node; eauto.
   - simpl. destruct (step t p) as [s c| |] eqn:Es; try discriminate.
-    destruct (step_found _ _ _ _ Es) as (k & ms & mk & -> & Hs & Hf & Hg & Hd).
+    destruct (step_lookup _ _ _ _ Es) as (k & ms & mk & -> & Hs & Hf & Hl).
     destruct (set_at c body att v) as [c'|] eqn:Ec; [|discriminate].
-    intros H Ht; inversion H; subst; clear H.
-    destruct (IH _ _ _ _ Ec Ht) as [IHs IHg]. split.
-    + simpl. f_equal. eapply shape_subst; eauto.
-    + intros k' Hk. destruct k' as [|q r]; [reflexivity|].
-      unfold geto. simpl.
+    intros H; inversion H; subst; clear H.
+    destruct (IH _ _ _ _ Ec) as (IHt & IHg & IHv).
+    assert (G : forall k', (forall r, k' = p :: r -> geto c' r = geto c r) ->
+                geto (Node k (subst s p (fun _ => c') ms)) k' = geto (Node k ms) k').
+    { intros k' Hr. destruct k' as [|q r]; [reflexivity|].
+      unfold geto. cbn [get].
       destruct (String.eqb q p) eqn:Eq.
-      * apply String.eqb_eq in Eq. subst q.
-        rewrite getattr_subst_std by assumption.
-        destruct (getattr k p ms) as [[mk' t0]|] eqn:Eg; [|reflexivity].
+      - apply String.eqb_eq in Eq. subst q.
+        rewrite lookup_subst_std by assumption.
+        destruct (lookup (item_first k (is_nil r)) k p ms) as [[mk' t0]|] eqn:Eg; [|reflexivity].
         destruct (s mk') eqn:Esm; [|reflexivity].
-        rewrite (getattr_sel_find _ _ _ _ _ _ Hs Eg Esm) in Hf. inversion Hf; subst.
-        apply (IHg r). congruence.
-      * apply String.eqb_neq in Eq. rewrite getattr_subst_other by assumption. reflexivity.
+        rewrite (lookup_sel_find _ _ _ _ _ _ _ Hs Eg Esm) in Hf. inversion Hf; subst.
+        apply (Hr r eq_refl).
+      - apply String.eqb_neq in Eq. rewrite lookup_subst_other by assumption. reflexivity. }
+    split; [exact IHt|]. split.
+    + intros k' Hk. apply G. intros r ->. apply IHg.
+      simpl in Hk. rewrite String.eqb_refl in Hk. exact Hk.
+    + intros Hset. destruct (IHv Hset) as [Sh Gv]. split.
+      * simpl. f_equal. eapply shape_subst; eauto.
+      * intros k' Hk. apply G. intros r ->. apply Gv. simpl in Hk. congruence.
 Qed.
 
-Theorem frame_partial : forall t k v t',
+(* FRAME: an accepted assignment addressed an existing, settable setting, and every key that does not extend the
+   assigned key reads exactly as before (same value, same object marker or same error) *)
+Theorem frame : forall t k v t',
+  set t k v = Ok t' ->
+  targets t k = true /\ forall k', is_prefix k k' = false -> getv t' k' = getv t k'.
+Proof.
+  intros t k v t'. unfold set, targets.
+  destruct (split_last k) as [[b a]|] eqn:E; [|discriminate].
+  apply split_last_app in E. subst k. intros Hs.
+  destruct (set_at_frame _ _ _ _ _ Hs) as (Ht & G & _). split; [exact Ht|].
+  intros k' Hk. unfold getv. destruct k' as [|q r]; [reflexivity|]. apply (G (q :: r) Hk).
+Qed.
+
+(* ... and when the setting held a plain value, nothing at all changes but that value *)
+Theorem frame_value : forall t k v t',
   set t k v = Ok t' -> targets_setting t k = true ->
   shape t' = shape t /\ forall k', k' <> k -> getv t' k' = getv t k'.
 Proof.
   intros t k v t'. unfold set, targets_setting.
   destruct (split_last k) as [[b a]|] eqn:E; [|discriminate].
   apply split_last_app in E. subst k. intros Hs Ht.
-  destruct (set_at_frame _ _ _ _ _ Hs Ht) as [S G]. split; [exact S|].
+  destruct (set_at_frame _ _ _ _ _ Hs) as (_ & _ & Hv). destruct (Hv Ht) as [S G]. split; [exact S|].
   intros k' Hk. unfold getv. destruct k' as [|q r]; [reflexivity|]. apply (G (q :: r) Hk).
 Qed.
 
 (* a setting is something has() confirms *)
-Lemma tail_setting_has t att : tail_is_setting t att = true -> has_tail t att = true.
+Lemma tail_target_has t att : tail_is_target t att = true -> has_tail t att = true.
 Proof.
   destruct t as [x|k ms]; simpl; [discriminate|].
   destruct k; simpl; unfold getattr, orelse.
@@ -326,16 +417,53 @@ Proof.
   - destruct (find is_prop att ms) as [[]|]; auto.
     destruct (find is_inst att ms) as [[]|]; auto.
     destruct (find is_class att ms) as [[]|]; auto.
-    simpl. destruct (find is_item att ms) as [[]|]; auto; discriminate.
   - destruct (find is_prop att ms) as [[]|]; auto.
     destruct (find is_inst att ms) as [[]|]; auto; discriminate.
 Qed.
 
-Theorem targets_setting_has : forall t k, targets_setting t k = true -> has t k = Ok true.
+Theorem targets_has : forall t k, targets t k = true -> has t k = Ok true.
 Proof.
-  intros t k. unfold targets_setting, has. destruct (split_last k) as [[b a]|]; [|discriminate].
+  intros t k. unfold targets, has. destruct (split_last k) as [[b a]|]; [|discriminate].
   revert t. induction b as [|p b IH]; intros t; simpl.
-  - intros H. rewrite (tail_setting_has _ _ H). reflexivity.
+  - intros H. rewrite (tail_target_has _ _ H). reflexivity.
+  - destruct (step t p); try discriminate. apply IH.
+Qed.
+
+Lemma tail_setting_target t att : tail_is_setting t att = true -> tail_is_target t att = true.
+Proof.
+  destruct t as [x|k ms]; simpl; [discriminate|].
+  destruct k; simpl;
+    repeat match goal with
+           | |- context [match ?x with _ => _ end] => destruct x; try discriminate; try reflexivity
+           end.
+Qed.
+
+Theorem targets_setting_targets : forall t k, targets_setting t k = true -> targets t k = true.
+Proof.
+  intros t k. unfold targets_setting, targets. destruct (split_last k) as [[b a]|]; [|discriminate].
+  revert t. induction b as [|p b IH]; intros t; simpl.
+  - apply tail_setting_target.
+  - destruct (step t p); try discriminate. apply IH.
+Qed.
+
+Theorem targets_setting_has : forall t k, targets_setting t k = true -> has t k = Ok true.
+Proof. intros. apply targets_has, targets_setting_targets. assumption. Qed.
+
+Lemma tail_argument_has t att :
+  match t with Node NArgs ms => match find is_item att ms with Some _ => true | None => false end | _ => false end = true ->
+  has_tail t att = true.
+Proof.
+  destruct t as [x|k ms]; [discriminate|]. destruct k; try discriminate. simpl. unfold getattr, orelse.
+  destruct (find is_prop att ms) as [[]|]; auto.
+  destruct (find is_inst att ms) as [[]|]; auto.
+  destruct (find is_class att ms) as [[]|]; auto.
+Qed.
+
+Theorem targets_argument_has : forall t k, targets_argument t k = true -> has t k = Ok true.
+Proof.
+  intros t k. unfold targets_argument, has. destruct (split_last k) as [[b a]|]; [|discriminate].
+  revert t. induction b as [|p b IH]; intros t; simpl.
+  - intros H. rewrite (tail_argument_has _ _ H). reflexivity.
   - destruct (step t p); try discriminate. apply IH.
 Qed.
 
@@ -351,91 +479,39 @@ Qed.
 Lemma getattr_none_prop k n ms : getattr k n ms = None -> find is_prop n ms = None.
 Proof. unfold getattr, orelse. destruct (find is_prop n ms); [discriminate|auto]. Qed.
 
-Lemma assign_unresolved t att v :
-  has_tail t att = false -> tail_open t = false -> exists e, assign t att v = Raise e.
+Lemma getattr_none_inst k n ms : getattr k n ms = None -> find is_inst n ms = None.
+Proof.
+  unfold getattr, orelse. destruct (find is_prop n ms); [discriminate|].
+  destruct (find is_inst n ms); [discriminate|auto].
+Qed.
+
+Lemma assign_unresolved t att v : has_tail t att = false -> exists e, assign t att v = Raise e.
 Proof.
   destruct t as [x|k ms]; simpl; [eauto|].
   destruct k; simpl.
-  - destruct open; [discriminate|]. destruct (getattr (NObj false) att ms) eqn:E; [discriminate|].
-    rewrite (getattr_none_prop _ _ _ E). eauto.
+  - destruct (getattr (NObj open) att ms) eqn:E; [discriminate|].
+    rewrite (getattr_none_prop _ _ _ E), (getattr_none_inst _ _ _ E). destruct open; eauto.
   - destruct (find is_item att ms); [discriminate|]. eauto.
   - destruct (getattr NArgs att ms) eqn:E; [discriminate|].
     rewrite (getattr_none_item NArgs _ _ eq_refl E). eauto.
-  - discriminate.
+  - destruct (getattr NGroup att ms) eqn:E; [discriminate|].
+    rewrite (getattr_none_prop _ _ _ E), (getattr_none_inst _ _ _ E). eauto.
 Qed.
 
 Lemma set_at_unresolved : forall body t att v,
-  has_at t body att <> Ok true -> lands_open_at t body = false -> exists e, set_at t body att v = Raise e.
+  has_at t body att <> Ok true -> exists e, set_at t body att v = Raise e.
 Proof.
   induction body as [|p body IH]; intros t att v; simpl.
   - intros H. apply assign_unresolved. destruct (has_tail t att); congruence.
   - destruct (step t p) as [s c| |]; eauto.
-    intros H L. destruct (IH c att v H L) as [e ->]. eauto.
+    intros H. destruct (IH c att v H) as [e ->]. eauto.
 Qed.
 
-Theorem unresolved_rejected_partial : forall t k v,
-  has t k <> Ok true -> lands_open t k = false -> exists e, set t k v = Raise e.
+(* a key that has() does not confirm is refused by set() *)
+Theorem unresolved_rejected : forall t k v, has t k <> Ok true -> exists e, set t k v = Raise e.
 Proof.
-  intros t k v. unfold has, lands_open, set. destruct (split_last k) as [[b a]|]; eauto.
+  intros t k v. unfold has, set. destruct (split_last k) as [[b a]|]; eauto.
   apply set_at_unresolved.
-Qed.
-
-(* the defect, characterised: on an open object an unconfirmed name is accepted and a new attribute appears *)
-Lemma shape_ms_length_neq n mk t ms : shape_ms (MCons n mk t ms) <> shape_ms ms.
-Proof.
-  assert (L : forall a b : mlist, a = b ->
-              (fix len (m : mlist) : nat := match m with MNil => O | MCons _ _ _ r => S (len r) end) a =
-              (fix len (m : mlist) : nat := match m with MNil => O | MCons _ _ _ r => S (len r) end) b) by (intros; subst; auto).
-  intros H. apply L in H. simpl in H.
-  set (len := fix len (m : mlist) : nat := match m with MNil => O | MCons _ _ _ r => S (len r) end) in *.
-  assert (forall m, len (shape_ms m) = len m) as E by (induction m; simpl; auto).
-  lia.
-Qed.
-
-Lemma shape_subst_inv s n f ms mk c :
-  find s n ms = Some (mk, c) -> shape_ms (subst s n f ms) = shape_ms ms -> shape (f c) = shape c.
-Proof.
-  induction ms as [|n' mk' t' r IH]; simpl; [discriminate|].
-  destruct (String.eqb n n' && s mk')%bool eqn:E.
-  - intros H; inversion H; subst. simpl. intros K; inversion K; auto.
-  - intros H. simpl. intros K; inversion K; auto.
-Qed.
-
-Lemma assign_creates t att v :
-  has_tail t att = false -> tail_open t = true ->
-  exists t', assign t att v = Ok t' /\ shape t' <> shape t.
-Proof.
-  destruct t as [x|k ms]; simpl; [discriminate|].
-  destruct k; simpl; try discriminate.
-  - destruct open; [|discriminate]. unfold getattr, orelse.
-    destruct (find is_prop att ms); [discriminate|]. destruct (find is_inst att ms); [discriminate|].
-    intros _ _. eexists; split; [reflexivity|]. simpl. intros H; inversion H as [K].
-    exact (shape_ms_length_neq att KInst (Leaf v) ms K).
-  - unfold getattr, orelse.
-    destruct (find is_prop att ms); [discriminate|]. destruct (find is_inst att ms); [discriminate|].
-    intros _ _. eexists; split; [reflexivity|]. simpl. intros H; inversion H as [K].
-    exact (shape_ms_length_neq att KInst (Leaf v) ms K).
-Qed.
-
-Lemma set_at_creates : forall body t att v,
-  has_at t body att = Ok false -> lands_open_at t body = true ->
-  exists t', set_at t body att v = Ok t' /\ shape t' <> shape t.
-Proof.
-  induction body as [|p body IH]; intros t att v; simpl.
-  - intros H. apply assign_creates. congruence.
-  - destruct (step t p) as [s c| |] eqn:Es; try discriminate.
-    destruct (step_found _ _ _ _ Es) as (k & ms & mk & -> & Hs & Hf & _).
-    intros H L. destruct (IH c att v H L) as (c' & -> & Hne).
-    eexists; split; [reflexivity|]. simpl. intros K; inversion K as [K'].
-    apply Hne. exact (shape_subst_inv _ _ _ _ _ _ Hf K').
-Qed.
-
-Theorem unresolved_on_open_creates : forall t k v,
-  has t k = Ok false -> lands_open t k = true ->
-  exists t', set t k v = Ok t' /\ shape t' <> shape t.
-Proof.
-  intros t k v. unfold has, lands_open, set. destruct (split_last k) as [[b a]|]; [|discriminate].
-  apply set_at_creates.
 Qed.
 
 (* a refused assignment has no effect by construction (set returns no tree); recorded for the harness clause *)
@@ -457,20 +533,20 @@ Proof.
 Qed.
 
 Lemma check_step_disabled t key :
-  contains "pipeline." key = true ->
-  (forall v, getv t (split_dots (model_prefix key ++ ".enabled")%string) = Ok v -> truthy v = false) ->
+  is_pipeline_key (split_dots key) = true ->
+  (forall v, getv t (model_flag_key (split_dots key)) = Ok v -> truthy v = false) ->
   check_step t key <> None.
 Proof.
   intros Hc Hv. unfold check_step. destruct (has t (split_dots key)) as [[]|]; try congruence.
-  rewrite Hc. destruct (getv t (split_dots (model_prefix key ++ ".enabled")%string)) as [v|]; [|congruence].
+  rewrite Hc. destruct (getv t (model_flag_key (split_dots key))) as [v|]; [|congruence].
   rewrite (Hv v eq_refl). congruence.
 Qed.
 
 Theorem undeclared_or_disabled_is_error : forall t keys key,
   In key keys ->
   (has t (split_dots key) <> Ok true \/
-   (contains "pipeline." key = true /\
-    forall v, getv t (split_dots (model_prefix key ++ ".enabled")%string) = Ok v -> truthy v = false)) ->
+   (is_pipeline_key (split_dots key) = true /\
+    forall v, getv t (model_flag_key (split_dots key)) = Ok v -> truthy v = false)) ->
   exists e, validate_steps t keys = Some e.
 Proof.
   intros t keys key Hin [H|[Hc Hv]]; eapply validate_error_any_position; eauto using check_step_undeclared, check_step_disabled.
@@ -480,13 +556,79 @@ Theorem validated_keys_declared_and_enabled : forall t keys,
   validate_steps t keys = None ->
   forall key, In key keys ->
     has t (split_dots key) = Ok true /\
-    (contains "pipeline." key = true ->
-     exists v, getv t (split_dots (model_prefix key ++ ".enabled")%string) = Ok v /\ truthy v = true).
+    (is_pipeline_key (split_dots key) = true ->
+     exists v, getv t (model_flag_key (split_dots key)) = Ok v /\ truthy v = true).
 Proof.
   induction keys as [|k r IH]; simpl; [tauto|].
   destruct (check_step t k) eqn:E; [discriminate|]. intros Hv key [->|Hin]; [|auto].
   unfold check_step in E. destruct (has t (split_dots key)) as [[]|]; try discriminate.
   split; [reflexivity|]. intros Hc. rewrite Hc in E.
-  destruct (getv t (split_dots (model_prefix key ++ ".enabled")%string)) as [v|]; [|discriminate].
+  destruct (getv t (model_flag_key (split_dots key))) as [v|]; [|discriminate].
   exists v. split; [reflexivity|]. destruct (truthy v); [reflexivity|discriminate].
+Qed.
+
+(* a sweep key that the specification admits (a declared setting or argument, of an enabled model if it is a
+   pipeline key — the enabled flag itself included) is accepted *)
+Theorem admitted_key_accepted : forall t key, spec_step_ok t key = true -> validate_steps t [key] = None.
+Proof.
+  intros t key. unfold spec_step_ok, validate_steps, check_step.
+  set (k := split_dots key).
+  assert (Hh : (if targets_setting t k then true else targets_argument t k) = true -> has t k = Ok true).
+  { destruct (targets_setting t k) eqn:E1; [intros _; apply targets_setting_has; assumption|].
+    apply targets_argument_has. }
+  destruct (if targets_setting t k then true else targets_argument t k); [|discriminate].
+  rewrite (Hh eq_refl). destruct (is_pipeline_key k); [|reflexivity].
+  destruct (getv t (model_flag_key k)) as [v|]; [|discriminate]. intros ->. reflexivity.
+Qed.
+
+(* ------------------------------------------------------------------------------------ setter guards *)
+
+Lemma cmp_bound_int z b : cmp_bound z 0 b = Z.compare z b.
+Proof. unfold cmp_bound. simpl. rewrite Z.mul_1_r. reflexivity. Qed.
+
+(* lo + 1/2 written 10*lo+5 e-1 *)
+Lemma cmp_bound_half lo b : cmp_bound (10 * lo + 5) (-1) b = (if (lo <? b)%Z then Lt else Gt).
+Proof.
+  unfold cmp_bound. change (0 <=? -1)%Z with false. cbv iota.
+  change (10 ^ (- -1))%Z with 10%Z.
+  destruct (lo <? b)%Z eqn:E.
+  - apply Z.ltb_lt in E. apply Z.compare_lt_iff. lia.
+  - apply Z.ltb_ge in E. apply Z.compare_gt_iff. lia.
+Qed.
+
+Theorem guard_inhabited_sound : forall g, guard_inhabited g = true -> exists v, guard_check g v = None.
+Proof.
+  intros [|lo hi ls hs|lo ls|n]; cbn [guard_inhabited].
+  - intros _. exists VNone. reflexivity.
+  - destruct ls, hs; cbn [andb orb]; intros H.
+    + (* both strict: lo + 1/2 *)
+      exists (VDec (10 * lo + 5) (-1)). cbn [guard_check num_of]. unfold lo_ok, hi_ok. rewrite !cmp_bound_half.
+      apply Z.ltb_lt in H. assert (E1 : (lo <? lo)%Z = false) by (apply Z.ltb_ge; lia).
+      rewrite E1. assert (E2 : (lo <? hi)%Z = true) by (apply Z.ltb_lt; lia). rewrite E2. reflexivity.
+    + exists (VInt hi). cbn [guard_check num_of]. unfold lo_ok, hi_ok. rewrite !cmp_bound_int, Z.compare_refl.
+      apply Z.ltb_lt in H. assert (E : (hi ?= lo)%Z = Gt) by (apply Z.compare_gt_iff; lia). rewrite E. reflexivity.
+    + exists (VInt lo). cbn [guard_check num_of]. unfold lo_ok, hi_ok. rewrite !cmp_bound_int, Z.compare_refl.
+      apply Z.ltb_lt in H. assert (E : (lo ?= hi)%Z = Lt) by (apply Z.compare_lt_iff; lia). rewrite E. reflexivity.
+    + exists (VInt lo). cbn [guard_check num_of]. unfold lo_ok, hi_ok. rewrite !cmp_bound_int, Z.compare_refl.
+      apply Z.leb_le in H. destruct (lo ?= hi)%Z eqn:E; try reflexivity.
+      apply Z.compare_gt_iff in E. lia.
+  - intros _. exists (VInt (lo + 1)). cbn [guard_check num_of]. unfold lo_ok. rewrite cmp_bound_int.
+    assert (E : (lo + 1 ?= lo)%Z = Gt) by (apply Z.compare_gt_iff; lia). rewrite E. reflexivity.
+  - intros H. apply Z.leb_le in H. exists (VList (repeat VNone (Z.to_nat n))). cbn [guard_check].
+    rewrite repeat_length, Z2Nat.id by assumption. rewrite Z.eqb_refl. reflexivity.
+Qed.
+
+Theorem guards_inhabited_all : forall tbl,
+  forallb (fun x : string * string * guard => guard_inhabited (snd x)) tbl = true ->
+  forall c f g, In (c, f, g) tbl -> exists v, guard_check g v = None.
+Proof.
+  intros tbl H c f g Hin. rewrite forallb_forall in H. apply guard_inhabited_sound. exact (H _ Hin).
+Qed.
+
+(* what an accepted assignment through a guarded setter implies: the value passed the guard *)
+Lemma assign_respects_guard t att v t' k ms g c :
+  t = Node k ms -> (k = NObj true \/ k = NObj false \/ k = NGroup) ->
+  find is_prop att ms = Some (KProp true g, c) -> assign t att v = Ok t' -> guard_check g v = None.
+Proof.
+  intros -> Hk Hf. simpl. destruct Hk as [->|[->| ->]]; rewrite Hf; destruct (guard_check g v); congruence.
 Qed.
